@@ -156,6 +156,19 @@ def check_selection(seed, n_cases, n_max=4, debug=False):
                             v = one_selection(cw, R, X, T, True, True)
                             if v:
                                 viol.append(dict(kind="history", check="selection", seed=seed, index=-cases, debug=True, world=cw.describe(), R=R, X=X, T=T, flag=True, violations=v))
+    if debug:
+        # deterministic: two mirrored diamonds  x <- (l1, x0), x0 <- l2  and  y <- (l2, y0), y0 <- l1  (x0, x, y0, y debug):
+        # whichever leaf the traversal starts from, one of x / y is first met BEFORE its debug parent has been added and must
+        # still end up in the fixed point
+        for T in (["l1", "l2"], ["l2", "l1"]):
+            nodes = [dict(id="l1", deps=[], prio=0, seq=False, res="thread"), dict(id="l2", deps=[], prio=0, seq=False, res="thread"),
+                     dict(id="x0", deps=[("l2", [])], prio=0, seq=False, res="thread", debug=True), dict(id="x", deps=[("l1", []), ("x0", [])], prio=0, seq=False, res="thread", debug=True),
+                     dict(id="y0", deps=[("l1", [])], prio=0, seq=False, res="thread", debug=True), dict(id="y", deps=[("l2", []), ("y0", [])], prio=0, seq=False, res="thread", debug=True)]
+            cw = World(nodes)
+            cases += 1
+            v = one_selection(cw, None, None, list(T), True, True)
+            if v:
+                viol.append(dict(kind="history", check="selection", seed=seed, index=-cases, debug=True, world=cw.describe(), R=None, X=None, T=T, flag=True, violations=v))
     for idx in range(n_cases):
         w = rand_world(rnd, rnd.randint(2, n_max), debug_p=0.35 if debug else 0.0, tags=True)
         ids = list(w.order)
@@ -238,6 +251,20 @@ def one_selection(w, R, X, T, flag, debug, by_ref=False):
                     v.append(f"non-debug node {a} added to the selection with RUN_DEBUG_NODES on")
                 elif not all(d in got for d in w.all_deps(a) if d in w.nodes):
                     v.append(f"[C13] debug node {a} pulled in although its inputs {[d for d in w.all_deps(a) if d not in got]} are not selected")
+            # the documented selection is a FIXED POINT over the LEAVES of the selected sub-graph: a debug successor whose
+            # parents are all in the growing set (leaves + debug nodes added so far) is added; nothing of it may be missing
+            succ = {n_: [m for m in w.order if n_ in w.all_deps(m)] for n_ in w.order}
+            L = {n_ for n_ in exp if not any(m in exp for m in succ[n_])}
+            grown = True
+            while grown:
+                grown = False
+                for n_ in sorted(L):
+                    for m in succ[n_]:
+                        if m not in L and m in dbg and all(d in L for d in w.all_deps(m) if d in w.nodes):
+                            L.add(m)
+                            grown = True
+            for a in sorted((L & dbg) - got):
+                v.append(f"[C03] debug node {a} is not part of the run although RUN_DEBUG_NODES is on and it belongs to the fixed point of 'debug successor whose parents are all selected leaves / added debug nodes' (leaves of the selection: {sorted(n_ for n_ in exp if not any(m in exp for m in succ[n_]))})")
         # C02: a selected sub-graph keeps EVERY dependency edge between two selected nodes (the scheduler orders by them)
         w_edges = {(d, n) for n in w.order for d in w.all_deps(n) if d in w.nodes}
         try:
@@ -291,6 +318,32 @@ def check_setup_histories(seed, n_cases, n_max=4, length=5):
     later executions see the first value, only needed setup nodes run"""
     rnd = random.Random(seed)
     viol, cases = [], 0
+    # deterministic: an executor selected by a node REFERENCE, on a DAG where ANOTHER node carries a tag spelled like that
+    # node's id; executor.setup() / DAG.setup(reference) run the setup nodes of the selection - not those of the tagged node
+    import asyncio
+
+    for is_async in (False, True):
+        for how in ("executor.setup", "dag.setup", "executor.call"):
+            for sel in ("target", "root+target"):
+                nodes = [dict(id="lm", deps=[], prio=0, seq=False, res="thread", setup=True), dict(id="lt", deps=[], prio=0, seq=False, res="thread", setup=True),
+                         dict(id="x", deps=[("lm", [])], prio=0, seq=False, res="thread"), dict(id="y", deps=[("lt", [])], prio=0, seq=False, res="thread", tag="x")]
+                cw = World(nodes)
+                d = cw.build_dag(is_async=is_async)
+                aw = (lambda c: asyncio.run(c)) if is_async else (lambda c: c)
+                kw = dict(target_nodes=[d.exec_nodes["x"]]) if sel == "target" else dict(target_nodes=[d.exec_nodes["x"]], root_nodes=[d.exec_nodes["lm"]])
+                cases += 1
+                cw.calls = {}
+                if how == "executor.setup":
+                    out, _ = run_controlled(lambda: aw(d.executor(**kw).setup()), cw)
+                elif how == "dag.setup":
+                    out, _ = run_controlled(lambda: aw(d.setup(**kw)), cw)
+                else:
+                    out, _ = run_controlled(lambda: aw(d.executor(**kw)()), cw)
+                ran = sorted(n for n, c in cw.calls.items() if c)
+                exp = ["lm"] if how != "executor.call" else ["lm", "x"]
+                if out[0] != "return" or ran != exp:
+                    viol.append(dict(kind="history", check="setup", seed=seed, index=-cases, world=cw.describe(), is_async=is_async, violations=[
+                        f"{how}({sel} = reference to node x; node y is TAGGED 'x') -> {out[0]}, ran {ran}; the selection needs exactly {exp}"]))
     for idx in range(n_cases):
         w = rand_world(rnd, rnd.randint(2, n_max), setup_p=0.5)
         sids = [n for n in w.order if w.nodes[n].get("setup")]
